@@ -43,6 +43,13 @@ impl TlsAcceptor {
 //@extract_type file=actix-tls/src/accept/mod.rs item="enum TlsError<TlsErr, SvcErr>"
 #[verifier::reject_recursive_types(IO)]
 pub struct TlsStream<IO>(pub tokio_rustls::server::TlsStream<IO>);
+pub type InnerTls<IO> = tokio_rustls::server::TlsStream<IO>;
+#[verifier::external_body]
+pub struct ServerConnection { _p: () }
+impl<IO> tokio_rustls::server::TlsStream<IO> {
+    #[verifier::external_body]
+    pub fn get_ref(&self) -> (r: (&IO, &ServerConnection)) ensures *r.0 == self.sock() { unimplemented!() }
+}
 //@check_struct file=${FILE} name=AcceptorService fields=acceptor,conns,handshake_timeout
 //@extract_type file=${FILE} item="struct AcceptorService"
 //@check_struct file=${FILE} name=AcceptFut fields=fut,timeout,_guard
@@ -126,6 +133,59 @@ impl<IO> AcceptFut<IO> {
         r is Pending ==> final(self).timeout.parked() && final(self).fut.hs_parked(),   // [C18]
 //@end
 
+}
+
+
+// ===================================================================== the wrapper forwards every I/O operation unchanged (C18: data intact)
+//@include ../common/tls_stream.rs
+impl<IO: ActixStream> TlsStream<IO> {
+//@extract file=${FILE} item="impl<IO: ActixStream> AsyncRead for TlsStream<IO> / fn poll_read" ret=r props=C18 name=stream::poll_read alias_get_mut
+//@spec
+    ensures
+        // exactly the TLS session's own read: the bytes appended to `buf` are the next plaintext bytes, none lost, none invented   [C18]
+        r matches Poll::Ready(Ok(_)) ==> exists|n: int| 0 <= n <= old(self).0.plain_in().len()
+            && final(buf).filled() == old(buf).filled() + #[trigger] old(self).0.plain_in().subrange(0, n)
+            && final(self).0.plain_in() == old(self).0.plain_in().subrange(n, old(self).0.plain_in().len() as int),
+        !(r matches Poll::Ready(Ok(_))) ==> final(buf).filled() == old(buf).filled() && final(self).0.plain_in() == old(self).0.plain_in(),
+        final(self).0.plain_out() == old(self).0.plain_out(),
+//@end
+//@extract file=${FILE} item="impl<IO: ActixStream> AsyncWrite for TlsStream<IO> / fn poll_write" ret=r props=C18 name=stream::poll_write alias_get_mut
+//@spec
+    ensures
+        // exactly the accepted prefix of `buf` is handed to the TLS session, in order   [C18]
+        r matches Poll::Ready(Ok(n)) ==> n <= buf@.len() && final(self).0.plain_out() == old(self).0.plain_out() + buf@.subrange(0, n as int),
+        !(r matches Poll::Ready(Ok(_))) ==> final(self).0.plain_out() == old(self).0.plain_out(),
+        final(self).0.plain_in() == old(self).0.plain_in(),
+//@end
+//@extract file=${FILE} item="impl<IO: ActixStream> AsyncWrite for TlsStream<IO> / fn poll_flush" ret=r props=C18 name=stream::poll_flush alias_get_mut
+//@spec
+    ensures final(self).0.plain_out() == old(self).0.plain_out(), final(self).0.plain_in() == old(self).0.plain_in(),
+            r matches Poll::Ready(Ok(_)) ==> final(self).0.flushed(),   // [C18]
+//@end
+//@extract file=${FILE} item="impl<IO: ActixStream> AsyncWrite for TlsStream<IO> / fn poll_shutdown" ret=r props=C18 name=stream::poll_shutdown alias_get_mut
+//@spec
+    ensures final(self).0.plain_out() == old(self).0.plain_out(), final(self).0.plain_in() == old(self).0.plain_in(),
+            r matches Poll::Ready(Ok(_)) ==> final(self).0.shut(),   // [C18]
+//@end
+//@extract file=${FILE} item="impl<IO: ActixStream> AsyncWrite for TlsStream<IO> / fn poll_write_vectored" ret=r props=C18 name=stream::poll_write_vectored alias_get_mut
+//@spec
+    ensures
+        r matches Poll::Ready(Ok(n)) ==> n <= io_slices_bytes(bufs).len() && final(self).0.plain_out() == old(self).0.plain_out() + io_slices_bytes(bufs).subrange(0, n as int),   // [C18]
+        !(r matches Poll::Ready(Ok(_))) ==> final(self).0.plain_out() == old(self).0.plain_out(),
+        final(self).0.plain_in() == old(self).0.plain_in(),
+//@end
+//@extract file=${FILE} item="impl<IO: ActixStream> AsyncWrite for TlsStream<IO> / fn is_write_vectored" ret=r props=C18 name=stream::is_write_vectored
+//@spec
+    ensures r == self.0.vectored(),
+//@end
+//@extract file=${FILE} item="impl<IO: ActixStream> ActixStream for TlsStream<IO> / fn poll_read_ready" ret=r props=C18 name=stream::poll_read_ready
+//@spec
+    ensures r == self.0.sock().next_read_ready(),   // [C18] readiness is the underlying socket's
+//@end
+//@extract file=${FILE} item="impl<IO: ActixStream> ActixStream for TlsStream<IO> / fn poll_write_ready" ret=r props=C18 name=stream::poll_write_ready
+//@spec
+    ensures r == self.0.sock().next_write_ready(),   // [C18]
+//@end
 }
 
 } // verus!
